@@ -1,6 +1,7 @@
 package logqlengine
 
 import (
+	"encoding/binary"
 	"maps"
 	"regexp"
 	"slices"
@@ -76,10 +77,20 @@ func (a *aggregatedLabels) Without(labels ...logql.Label) logqlmetric.Aggregated
 
 // Key computes grouping key from set of labels.
 func (a *aggregatedLabels) Key() logqlmetric.GroupingKey {
-	h := xxhash.New()
+	var (
+		h   = xxhash.New()
+		buf [8]byte
+	)
+	writeString := func(s string) {
+		// Prefix every string with its length: plain concatenation is ambiguous
+		// ({a="bc"} and {ab="c"} would hash the same bytes).
+		binary.LittleEndian.PutUint64(buf[:], uint64(len(s)))
+		_, _ = h.Write(buf[:])
+		_, _ = h.WriteString(s)
+	}
 	a.forEach(func(k, v string) {
-		_, _ = h.WriteString(k)
-		_, _ = h.WriteString(v)
+		writeString(k)
+		writeString(v)
 	})
 	return h.Sum64()
 }
